@@ -60,12 +60,17 @@ pub struct ExactPair {
 }
 
 pub fn exact_pair(data: &[(f64, f64)]) -> ExactPair {
+    exact_pair_sel(data, true, true)
+}
+
+/// `cov`: compute the co-moment (C09); `weighted`: compute the weighted sums (C08)
+pub fn exact_pair_sel(data: &[(f64, f64)], cov: bool, weighted: bool) -> ExactPair {
     let xs: Vec<f64> = data.iter().map(|p| p.0).collect();
     let ys: Vec<f64> = data.iter().map(|p| p.1).collect();
     let x = exact_scalar(&xs, 2);
     let y = exact_scalar(&ys, 2);
-    let cxy = if data.is_empty() { f64::NAN } else { exact::comoment(&xs, &ys) };
-    let (wmean, sum_w, sum_w2) = exact::weighted(&xs, &ys);
+    let cxy = if data.is_empty() || !cov { f64::NAN } else { exact::comoment(&xs, &ys) };
+    let (wmean, sum_w, sum_w2) = if weighted { exact::weighted(&xs, &ys) } else { (f64::NAN, f64::NAN, f64::NAN) };
     let weights_ok = ys.iter().all(|&w| w >= 0.);
     ExactPair { x, y, cxy, wmean, sum_w, sum_w2, weights_ok }
 }
